@@ -36,6 +36,7 @@ class ACModel:
         self.breeze_exclusive = True
         self.state_overrides = None      # raw byte overrides for the C0 body
         self.raw_state_body = None       # if set, reported verbatim as the 0xC0 body
+        self.header_fill = bytes(5)      # frame header bytes 3..7 of rendered state frames
         self.msg_counter = 0
 
     # -- rendering --
@@ -44,7 +45,7 @@ class ACModel:
             body = bytes(self.raw_state_body)
         else:
             body = acstate.encode_0xC0(self.state, self.report_length, self.state_overrides)
-        return acframe.build(body, frame_type, check=self.report_check)
+        return acframe.build(body, frame_type, check=self.report_check, header_fill=self.header_fill)
 
     def caps_frame(self, page: int) -> bytes:
         page = min(page, len(self.caps_pages) - 1)
@@ -279,7 +280,7 @@ class SimDevice:
         self.rng = random.Random(seed)
         self.events = []            # device-side log
         self.conns = []
-        self.connect_script = []    # per-attempt: 'accept' | 'refuse' | 'hang'
+        self.connect_script = []    # per-attempt: 'accept' | 'refuse' | 'hang' | 'unreachable' | 'netunreach' | 'gaierror' | 'multi-refused' | 'etimedout'
         self.connect_default = "accept"
         self.fifo = False           # True: per-connection FIFO delivery even with unequal delays (network latency model)
         self.coalesce = False       # with fifo: bytes that catch up with delayed bytes are delivered in the same segment
@@ -309,6 +310,20 @@ class SimDevice:
             return self.net.REFUSE
         if mode == "hang":
             return self.net.HANG
+        # other ways the operating system reports a failed connect (all OSError, not all ConnectionError)
+        if mode == "unreachable":
+            return OSError(113, f"Connect call failed ({host!r}, {port})")             # EHOSTUNREACH
+        if mode == "netunreach":
+            return OSError(101, "Network is unreachable")
+        if mode == "gaierror":
+            import socket
+            return socket.gaierror(-2, "Name or service not known")
+        if mode == "multi-refused":
+            return OSError(f"Multiple exceptions: [Errno 111] Connect call failed ({host!r}, {port}), [Errno 111] Connect call failed ('10.0.0.99', {port})")
+        if mode == "etimedout":
+            return TimeoutError(110, "Connection timed out")
+        if isinstance(mode, BaseException):
+            return mode
         return None
 
     def __call__(self, transport):
